@@ -154,7 +154,7 @@ class GenomeOps(Harness):
                        "with symbolic chromosome, start, stop (and strand)",
               "thorough": "adds a 4-chromosome genome and 3 intervals"}
 
-    OPS = ("mask", "pileup", "sorted", "clip", "extend", "location", "windows", "merged0", "merged1", "merged0_via_track")
+    OPS = ("mask", "pileup", "sorted", "clip", "extend", "location", "windows", "merged0", "merged1", "merged0_via_track", "loc_sorted")
 
     def skeletons(self, tier, seed):
         out = []
@@ -165,6 +165,11 @@ class GenomeOps(Harness):
                     if n == 3 and (op in ("mask", "pileup") and g == "g4"):
                         continue
                     out.append(dict(genome=g, op=op, n=n))
+            out.append(dict(genome=g, op="loc_sorted", n=3))           # locations (the intervals' starts) put in genome order
+            if tier == "quick" and g in ("g3", "g3i"):
+                # three intervals can cover the end of one chromosome, all of the next and the start of the third: one run of the
+                # concatenated mask that crosses two chromosome boundaries
+                out.append(dict(genome=g, op="merged0_via_track", n=3))
             out.append(dict(genome=g, op="location", n=2, unstranded=True))      # start / stop / center of intervals without a strand
         return out
 
@@ -239,6 +244,9 @@ class GenomeOps(Harness):
             # the covered runs read back from the mask as intervals, then sorted (genome order) and merged (already maximal: unchanged)
             from bionumpy.genomic_data.genomic_intervals import GenomicIntervals
             return GenomicIntervals.from_track(gi.get_mask()).sorted().merged()
+        if op == "loc_sorted":
+            l = gi.get_location("start").sorted()
+            return dict(chrom=ctx.lst(l.chromosome.raw()), start=ctx.lst(l.position), stop=ctx.lst(l.position), labels=labels, n=len(l.position))
         r = dict(sorted=gi.sorted, clip=gi.clip, extend=lambda: gi.extended_to_size(x["L"]),
                  merged0=lambda: gi.merged(), merged1=lambda: gi.merged(1), merged0_via_track=via_track)[op]()
         res = dict(chrom=ctx.lst(r.chromosome.raw()), start=ctx.lst(r.start), stop=ctx.lst(r.stop), labels=labels, n=len(r))
@@ -322,13 +330,15 @@ class GenomeOps(Harness):
             elif op == "windows":
                 f = x["flank"].t
                 exp.append((z3.If(e["s"] - f > 0, e["s"] - f, 0), z3.If(e["s"] + f + 1 < size, e["s"] + f + 1, size)))
+            elif op == "loc_sorted":
+                exp.append((e["s"], e["s"]))
             else:
                 exp.append((e["s"], e["e"]))
         if op == "extend":
             if not out.get("stranded") or len(out["strand"]) != m:
                 return False
         rows_out = [(TI(out["chrom"][j]), TI(out["start"][j]), TI(out["stop"][j])) for j in range(m)]
-        if op == "sorted":
+        if op in ("sorted", "loc_sorted"):
             perms = []
             for perm in itertools.permutations(range(n), m):
                 perms.append(z3.And(*[z3.And(inc_term(ent[perm[j]]["c"]), rows_out[j][0] == code(ent[perm[j]]["c"]),
@@ -436,10 +446,12 @@ class GenomeOps(Harness):
             elif op == "windows":
                 f = cx["flank"]
                 r = (max(e["s"] - f, 0), min(e["s"] + f + 1, size))
+            elif op == "loc_sorted":
+                r = (e["s"], e["s"])
             else:
                 r = (e["s"], e["e"])
             exp.append((labels.index(names[e["c"]]),) + r)
-        if op == "sorted":
+        if op in ("sorted", "loc_sorted"):
             exp = sorted(exp)
         got = list(zip(cout["chrom"], cout["start"], cout["stop"]))
         if got != exp:
